@@ -140,6 +140,16 @@ def body(case, ctx):
         if second:
             target = b.circuit
             if second["flat"]:
+                # followers of whole blocks, remembered by object: flatten() removes the block but keeps its operations
+                pairs = []
+                with ctx.lib("followers of blocks"):
+                    for i, it in enumerate(program["top"]["items"]):
+                        rel = None if P.is_sub(it) else it.get("rel")
+                        if rel and rel[0] == "F" and rel[1] >= 0 and "share" not in it and P.is_sub(program["top"]["items"][rel[1]]):
+                            block = b.handles[(rel[1],)]
+                            content = list(block.decomposed_operations())
+                            if content and min(float(o.start_time) for o in content) >= float(block.start_time) - 1e-9:
+                                pairs.append((i, b.passed[(i,)], content))
                 ops3 = None
                 with ctx.lib("flatten + list"):
                     target = target.flatten()
@@ -147,6 +157,15 @@ def body(case, ctx):
                 if ops3 is None:
                     return
                 check_circuit(ctx, target, ops3, "flattened", facts, None)
+                listed = {id(o) for o in ops3}
+                for i, follower, content in pairs:
+                    if id(follower) not in listed or any(id(o) not in listed for o in content):
+                        continue          # (objects replaced: nothing to compare by identity)
+                    with ctx.lib("follower after flatten"):
+                        mine, latest = float(follower.start_time), max(float(o.end_time) for o in content)
+                    if mine < latest - 1e-9:
+                        ctx.fail("follower-overlaps-block", f"flattened: item {i} ({type(follower).__name__}) was added FOLLOWED_BY a block "
+                                 f"whose operations end at {latest} but starts at {mine}", dict(facts, what="flattened"))
             dreg = program.get("dreg", {})
             changed = False
             with ctx.lib("change registry durations"):
